@@ -117,4 +117,23 @@ def setupPod (h : Host) (p : Pod) : Host :=
 host veth, found by the interface's name - the host side of the setup is asserted again -/
 def ruleSync (h : Host) (ifaces : List Pod) : Host := ifaces.foldl setupPod h
 
+/-! ### `utils.CleanIPRules` (run in the host namespace by every CNI DEL, through `GenericTearDown`)
+
+Rules of the two pod priorities that are bound to a device (older releases wrote `iif` / `oif` rules) whose device is gone are
+deleted, and with each of them the address-only rules of those priorities for the same address.  In the model a device-bound rule
+is a rule with `oif` set, and every such device is a vanished one (the current code binds no host rule to a device). -/
+
+def isPodPrio (r : Rule) : Bool := r.prio == toContainerPrio || r.prio == fromContainerPrio
+
+def deadRules (rules : List Rule) : List Rule := rules.filter fun r => isPodPrio r && r.oif.isSome
+
+/-- the address a dead rule was about: its source if it has one, else its destination -/
+def deadNets (rules : List Rule) : List Pfx := (deadRules rules).filterMap fun r => match r.src with | some s => some s | none => r.dst
+
+def optIn (o : Option Pfx) (nets : List Pfx) : Bool := match o with | some p => nets.contains p | none => false
+
+def cleanRules (rules : List Rule) : List Rule :=
+  let nets := deadNets rules
+  rules.filter fun r => !(isPodPrio r && (r.oif.isSome || optIn r.dst nets || optIn r.src nets))
+
 end Terway.Fib
